@@ -63,7 +63,7 @@ fam("ident3", 3, 3, lambda k: [k[0], k[1], k[2]], [8.0, -6.0, 3.0])
 
 def spec_defaults(spec):
     s = {"limits": None, "kw": None, "tw": None, "tol": 1e-9, "tshift": 0.0, "max_step": None, "steps": 1e-6,
-         "nsm": 20, "dv": (), "dt": (), "restore": True}
+         "nsm": 20, "dv": (), "dt": (), "restore": True, "v_inactive": (), "enable_v": ()}
     s.update(spec)
     return s
 
@@ -124,7 +124,8 @@ class Problem:
         for i in range(nk):
             vary.append(Vary(f"k{i}", self.knobs, limits=None if s["limits"] is None else s["limits"][i],
                              step=s["steps"], weight=None if s["kw"] is None else s["kw"][i],
-                             max_step=None if s["max_step"] is None else s["max_step"][i], tag=f"v{i}"))
+                             max_step=None if s["max_step"] is None else s["max_step"][i], tag=f"v{i}",
+                             active=(i not in s["v_inactive"])))
         targets = [Target(i, self.tvals[i], tol=self.tols[i], weight=None if s["tw"] is None else s["tw"][i],
                           action=self.action, tag=f"t{i}") for i in range(nt)]
         self.opt = Optimize(vary, targets, n_steps_max=s["nsm"], restore_if_fail=s["restore"], show_call_counter=False,
@@ -133,6 +134,8 @@ class Problem:
             self.opt.disable(vary=list(s["dv"]))
         if s["dt"]:
             self.opt.disable(target=list(s["dt"]))
+        if s["enable_v"]:
+            self.opt.enable(vary=list(s["enable_v"]))
 
     # -- harness-side truth
     def f(self, k):
@@ -206,6 +209,10 @@ def spec_str(spec):
         parts.append(f"target_shift={s['tshift']}")
     if s["nsm"] != 20:
         parts.append(f"n_steps_max={s['nsm']}")
+    if s["v_inactive"]:
+        parts.append(f"vary_built_inactive={list(s['v_inactive'])} then enabled={list(s['enable_v'])}")
+    if s["steps"] != 1e-6:
+        parts.append(f"fd_step={s['steps']}")
     if s["dv"]:
         parts.append(f"disabled_vary={list(s['dv'])}")
     if s["dt"]:
